@@ -234,7 +234,7 @@ impl Editor<'_> {
                     fs::write(&p, b).unwrap();
                     let t = self.fresh_mtime();
                     set_mtime(&p, t).unwrap();
-                    self.log.push("content+size");
+                    self.log.push("content&size");
                 }
             }
             2 => {
@@ -247,7 +247,7 @@ impl Editor<'_> {
                     let b = rand_bytes(self.r, old + extra);
                     fs::write(&p, b).unwrap();
                     set_mtime(&p, t).unwrap();
-                    self.log.push("content+size,mtime-kept");
+                    self.log.push("content&size,mtime-kept");
                 }
             }
             3 | 4 => {
